@@ -38,10 +38,10 @@ type corpus struct {
 		Starts int        `json:"starts"`
 		P      [3]float64 `json:"p"` // cartesian
 	} `json:"points"`
-	Mating  []mateCase `json:"mating"`
+	Mating []mateCase `json:"mating"`
 	// profile-plane points of ISOThread(radius, pitch, external) judged by the exact crossing number (levels.go)
 	Profile2D []prof2dCase `json:"profile2d"`
-	BoltNut []struct {
+	BoltNut   []struct {
 		Thread string     `json:"thread"`
 		Tol    float64    `json:"tol"`
 		TolNut *float64   `json:"tol_nut,omitempty"` // the nut's tolerance when it differs from the bolt's
@@ -842,7 +842,7 @@ func check(c *Ctx, r *Report) error {
 	}
 	nm := TierN(c.Tier, 120, 2000, 400)
 	lreps := TierN(c.Tier, 3, 8, 5) // placements per (vertex ordinate, -1/0/+1 ulp)
-	for _, g := range geos { // every row
+	for _, g := range geos {        // every row
 		tols := []float64{0, 0.01 * g.pitch, 0.25 * g.pitch, g.pitch}
 		for ti, tol := range tols {
 			tolE := tol
@@ -1101,12 +1101,13 @@ func check(c *Ctx, r *Report) error {
 	sort.Strings(sn)
 	r.Coverage["database_rows"] = len(rows)
 	r.Coverage["database_keys"] = len(names)
-	r.Rule = "every database key (ThreadLookup, ToMillimetre) bit-exact against the row regenerated from the source and against the designation (M<d>x<P> parsed; ASME B1.1 / B1.20.1 reference tables); SawTooth on dyadic / multiple-of-period / next-to-the-jump / random arguments; the helical mapping observed through a recording probe profile (on the axis, theta = +-pi, end planes, dyadic, far outside, thread zone; starts 0, +-1..+-4; straight and NPT-tapered; invalid constructor arguments); ISOThread profile and full Screw3D values near flanks / crests / roots / strip edges against the Gallina model; helix invariance, z-periodicity, handedness on long screws; mating of external radius-tol against the nut material of internal radius+tol for every row x tolerances {0, 1%, 25%, 100% of the pitch}; obj.Bolt against obj.Nut placed whole pitches along the thread; HISTORIES: interleaved calls of every obj generator that looks a thread up (ThreadedCylinder, Nut, Bolt; hex/knurl; metric, unified, pipe designations; tolerances > 0 and 0; several rounds), after every call every database key bit-identical (entry, hex sizes, ToMillimetre, ToMillimetre twice) to the snapshot of the fresh database, and the database after the histories through the db correspondence again. non-trivial = every case; distinct by exact input bits."
+	r.Rule = "every database key (ThreadLookup, ToMillimetre) bit-exact against the row regenerated from the source and against the designation (M<d>x<P> parsed; ASME B1.1 / B1.20.1 reference tables); SawTooth on dyadic / multiple-of-period / next-to-the-jump / random arguments; the helical mapping observed through a recording probe profile (on the axis, theta = +-pi, end planes, dyadic, far outside, thread zone; starts 0, +-1..+-4; straight and NPT-tapered; invalid constructor arguments); ISOThread profile and full Screw3D values near flanks / crests / roots / strip edges against the Gallina model; helix invariance, z-periodicity, handedness on long screws; mating of external radius-tol against the nut material of internal radius+tol for every row x tolerances {0, 1%, 25%, 100% of the pitch}; obj.Bolt against obj.Nut placed whole pitches along the thread; VERTEX LEVELS (levels.go): for every row x tolerance, 3D points whose distance from the axis (tapered: rho + z tan taper) is BIT FOR BIT the ordinate of a vertex of the external or the internal profile polygon (apex = BoundingBox().Max.Y, crest flat, fillet facets, bore; the vertex list rebuilt through the public Polygon API and cross-checked with the quadtree pieces) or of a cut / box centre of its quadtree, and one ulp either side - on the coordinate axes (theta = 0, -0, +-pi/2, pi, -pi), in generic directions (x, y searched so that sqrt(x*x+y*y) rounds to the value), at heights that put the profile abscissa on a vertex abscissa, exactness verified through the recording probe - through the mating oracle and through obj.Bolt / obj.Nut; every mating point additionally through the SIGN oracle (sign of each screw = exact rational crossing number of the recorded profile-plane point, guard 1e-9*(radius+pitch) around the outline); the 2D profiles themselves on the sparse grid (vertex ordinates +-1 ulp, cut ordinates) x (vertex abscissae, midpoints, cuts, beyond both ends) and transposed, sign by the exact crossing number, magnitude by the distance to the segments; HISTORIES: interleaved calls of every obj generator that looks a thread up (ThreadedCylinder, Nut, Bolt; hex/knurl; metric, unified, pipe designations; tolerances > 0 and 0; several rounds), after every call every database key bit-identical (entry, hex sizes, ToMillimetre, ToMillimetre twice) to the snapshot of the fresh database, and the database after the histories through the db correspondence again. non-trivial = every case; distinct by exact input bits."
 	r.Trusted = append(r.Trusted,
 		"translator harness/threadgen (go/parser + go/constant, symbolic execution of loop-free Go: helpers followed, locals / keyed literals / named constants / table-driven loops normalised away): rows and the Add/ToMillimetre bodies of sdf/screw.go -> coq/Generated/Threads.v; SawTooth, DtoR, Screw3D, ScrewSDF3.Evaluate, ISOThread -> coq/Generated/ThreadExpr.v, proved equal to the hand model for all real arguments (Sdf/ScrewEq.v: by conversion, else by real arithmetic); the construction of obj.Nut / obj.Bolt -> coq/Generated/ObjThread.v (calls returning (shape, error) taken to succeed) - all on every run",
 		"hand model coq/Sdf/Screw.v: SawTooth, Screw3D, ScrewSDF3.Evaluate, ISOThread vertex list are the translated source (theorems) AND run against the implementation at FOps (mapping bit-exact); Polygon smoothing (sdf/poly.go), the exhaustive polygon distance (sdf/mesh2.go) and pvn/pvs (Polygon.Add / Smooth) stay tied by differential execution only: profile/screw values within 1e-10*(radius+pitch) because Polygon2D walks a quadtree of clipped segments",
 		"Coq port of Go math (coq/Num/GoMath.v): sqrt, atan, atan2, tan, sin, cos, acos, floor, max",
-		"reference tables ASME B1.1 (UNC/UNF) and B1.20.1 (NPT) typed in coq/Sdf/ThreadDB.v and in the harness")
+		"reference tables ASME B1.1 (UNC/UNF) and B1.20.1 (NPT) typed in coq/Sdf/ThreadDB.v and in the harness",
+		"vertex-level strata (harness/cmd/c18/levels.go): the outline the exact crossing number is taken of is ISOThread's vertex list rebuilt in the harness through sdf.NewPolygon / Add / Smooth / Vertices (used when every vertex is found bit for bit among the quadtree pieces of the profile, hook VerifQtDump), otherwise the pieces themselves; the profile-plane point of a 3D point is the one recorded by a probe screw with the same pitch / taper / starts (mapping tied by translation and bit-exact cases)")
 	r.Assumptions = append(r.Assumptions,
 		"the 2D profile SDF is negative exactly inside its polygon (C04's subject); mating is proved for the polygons",
 		"mating and helix theorems are over the reals; with tolerance 0 the flanks coincide and float64 rounding can make them interpenetrate by ~1e-16*size - measured against delta = 1e-9*(radius+pitch), not proved",
